@@ -480,7 +480,22 @@ func NormLabel(l any) (any, bool) {
 	return nil, false
 }
 
+// builtinInt reports whether v's dynamic type is one of Go's predeclared integer types or the
+// library's Algorithm type; a named integer type of another package (a CBOR simple value, for
+// instance) is not an integer of the data model.
+func builtinInt(v any) bool {
+	rv := reflect.ValueOf(v)
+	if !rv.IsValid() {
+		return false
+	}
+	t := rv.Type()
+	return t.PkgPath() == "" || t.Name() == "Algorithm"
+}
+
 func goIsInt(v any) bool {
+	if !builtinInt(v) {
+		return false
+	}
 	switch reflect.ValueOf(v).Kind() {
 	case reflect.Int, reflect.Int8, reflect.Int16, reflect.Int32, reflect.Int64,
 		reflect.Uint, reflect.Uint8, reflect.Uint16, reflect.Uint32, reflect.Uint64:
@@ -490,6 +505,9 @@ func goIsInt(v any) bool {
 }
 
 func goIsUint(v any) bool {
+	if !builtinInt(v) {
+		return false
+	}
 	rv := reflect.ValueOf(v)
 	switch rv.Kind() {
 	case reflect.Uint, reflect.Uint8, reflect.Uint16, reflect.Uint32, reflect.Uint64:
